@@ -57,7 +57,8 @@ func drawJSValue(t *tape.Tape) interface{} {
 	case 1:
 		return []int{0, 1, -7, 123456, 1 << 40}[t.Intn("js.int", 5)]
 	case 2:
-		return []float64{1.5, -0.25, 2.0, 1e21, 3.0000001}[t.Intn("js.float", 5)]
+		// (2^63 and its neighbours: whole numbers at the edge of what an int64 can hold)
+		return []float64{1.5, -0.25, 2.0, 1e21, 3.0000001, 9223372036854775808.0, -9223372036854775808.0, 1152921504606846976.0}[t.Intn("js.float", 8)]
 	}
 	return t.Bool("js.bool")
 }
@@ -224,6 +225,12 @@ func normalize(v interface{}) interface{} {
 		return int64(x)
 	case int32:
 		return int64(x)
+	case int64:
+		// (a large whole number may come back as an integer or as a float: the same JSON number)
+		if x >= 1e15 || x <= -1e15 {
+			return float64(x)
+		}
+		return x
 	case float64:
 		if x == math.Trunc(x) && math.Abs(x) < 1e15 {
 			return int64(x)
@@ -310,15 +317,57 @@ type jsTask struct {
 	sigs   map[string]bool
 	counts map[string]int
 	family string
+	// flavour of the context nodes: 0 plain, 1 as the JSON reader builds them (typed values), 2 as the
+	// XML reader builds them (namespace prefixes). Types and prefixes are part of what _node shows.
+	flavour int
+}
+
+// typedTwins are JSON values that share their text and differ in type only.
+var typedTwins = []struct {
+	text string
+	typ  idr.JSONType
+}{{"1", idr.JSONValueStr}, {"1", idr.JSONValueNum}, {"true", idr.JSONValueBool}, {"true", idr.JSONValueStr}, {"", idr.JSONValueNull}, {"", idr.JSONValueStr}}
+
+func (t *jsTask) elem(name string) *idr.Node {
+	switch t.flavour {
+	case 1:
+		return idr.CreateJSONNode(idr.ElementNode, name, idr.JSONProp)
+	case 2:
+		return idr.CreateXMLNode(idr.ElementNode, name, idr.XMLSpecific{NamespacePrefix: []string{"p", "q"}[t.serial%2], NamespaceURI: "uri://verif/c20"})
+	}
+	return idr.CreateNode(idr.ElementNode, name)
+}
+
+// text makes a value node; twin says that it is to share its text with the value before or after it
+func (t *jsTask) text(s string, twin bool) *idr.Node {
+	switch t.flavour {
+	case 1:
+		if twin {
+			tw := typedTwins[t.serial%len(typedTwins)]
+			return idr.CreateJSONNode(idr.TextNode, tw.text, tw.typ)
+		}
+		return idr.CreateJSONNode(idr.TextNode, s, idr.JSONValueStr)
+	case 2:
+		if twin {
+			s = "same"
+		}
+		return idr.CreateXMLNode(idr.TextNode, s, idr.XMLSpecific{})
+	}
+	return idr.CreateNode(idr.TextNode, s)
 }
 
 func (t *jsTask) newNode() {
 	t.serial++
-	n := idr.CreateNode(idr.ElementNode, fmt.Sprintf("rec%d_%d", t.id, t.serial))
+	var n *idr.Node
+	if t.flavour == 1 {
+		n = idr.CreateJSONNode(idr.ElementNode, fmt.Sprintf("rec%d_%d", t.id, t.serial), idr.JSONProp|idr.JSONObj)
+	} else {
+		n = t.elem(fmt.Sprintf("rec%d_%d", t.id, t.serial))
+	}
 	for i := 0; i < 1+t.serial%3; i++ {
-		c := idr.CreateNode(idr.ElementNode, fmt.Sprintf("f%d", i))
+		c := t.elem(fmt.Sprintf("f%d", i))
 		idr.AddChild(n, c)
-		idr.AddChild(c, idr.CreateNode(idr.TextNode, fmt.Sprintf("v%d-%d-%d", t.id, t.serial, i)))
+		idr.AddChild(c, t.text(fmt.Sprintf("v%d-%d-%d", t.id, t.serial, i), false))
 	}
 	t.node = n
 }
@@ -340,10 +389,16 @@ func (t *jsTask) runAll(yield func()) {
 				idr.RemoveAndReleaseTree(t.node.FirstChild)
 			}
 			t.serial++
-			ch := idr.CreateNode(idr.ElementNode, "g")
+			// (typed flavours: six times in seven the new child differs from the one it replaces in
+			// type or prefix only - same names, same text, same shape)
+			twin := t.flavour != 0 && t.serial%7 != 0
+			ch := t.elem("g")
 			idr.AddChild(t.node, ch)
-			idr.AddChild(ch, idr.CreateNode(idr.TextNode, fmt.Sprintf("m%d-%d", t.id, t.serial)))
+			idr.AddChild(ch, t.text(fmt.Sprintf("m%d-%d", t.id, t.serial), twin))
 			t.counts["node-mutated-in-place"]++
+			if twin {
+				t.counts["node-mutated-in-place.type-or-prefix-only"]++
+			}
 		}
 		var args []interface{}
 		for j, n := range c.names {
@@ -415,7 +470,8 @@ func runC20(c *Ctx) []Violation {
 	c.T.End()
 	tasks := make([]*jsTask, nTasks)
 	for i := range tasks {
-		tasks[i] = &jsTask{id: i, calls: drawCalls(c.T, family), sigs: map[string]bool{}, counts: map[string]int{}, family: family}
+		tasks[i] = &jsTask{id: i, calls: drawCalls(c.T, family), sigs: map[string]bool{}, counts: map[string]int{}, family: family,
+			flavour: c.T.Weighted("c20.node-flavour", 2, 2, 1)}
 	}
 	env.Apply()
 	c.Note("%d tasks, family %s; env %s", nTasks, family, env)
@@ -426,12 +482,18 @@ func runC20(c *Ctx) []Violation {
 		s := sched.New(c.T)
 		s.Policy = policy
 		s.Soft = sched.DrawSoft(c.T, nTasks)
+		if sched.Instrumented && len(s.Soft) > 0 && s.Soft[0].SharedOnly {
+			c.Count("soft-yields.shared-state-files-only", 1)
+		}
 		fns := make([]func(*sched.Task), nTasks)
 		for i := range tasks {
 			t := tasks[i]
 			fns[i] = func(st *sched.Task) { t.runAll(st.Yield) }
 		}
 		res := s.Run(fns)
+		if n := s.Met(); n > 0 {
+			c.Count("sched.two-tasks-met-at-a-shared-state-statement", int64(n))
+		}
 		for i, r := range res {
 			if r.Panic != "" && tasks[i].fail == "" {
 				tasks[i].fail = "task panicked: " + r.Panic
